@@ -42,8 +42,11 @@ fn main() {
     let run = match prop.as_str() {
         "C08" => vcheck::checks::c08::run(tier),
         "C09" => vcheck::checks::c09::run(tier),
+        "C11" => vcheck::checks::c11::run(tier),
+        "C14" => vcheck::checks::c14::run(tier),
         "C16" => vcheck::checks::c16::run(tier),
         "C17" => vcheck::checks::c17::run(tier),
+        "C19" => vcheck::checks::c19::run(tier),
         _ => {
             eprintln!("no check for {}", prop);
             std::process::exit(2)
